@@ -6,7 +6,7 @@ import z3
 from . import z as Z
 from .heap import Heap
 
-QUERY_TIMEOUT_MS = 4000
+QUERY_TIMEOUT_MS = int(os.environ.get("PYVC_QUERY_MS", "1500"))
 
 STATS = {'queries': 0, 'query_s': 0.0}
 
@@ -81,11 +81,11 @@ class State:
         s = z3.Solver()
         s.set('timeout', QUERY_TIMEOUT_MS)
         s.set('smt.mbqi', False)
+        s.set('smt.arith.nl', False)      # path queries: products stay opaque (fewer deductions, never unsound for 'unsat')
         s.set('smt.qi.max_instances', int(os.environ.get('PYVC_QI_MAX', '3000')))
-        for p_ in self.pc:
+        from .delambda import prepare
+        for p_ in prepare(list(self.pc) + list(extra)):
             s.add(p_)
-        for e in extra:
-            s.add(e)
         r = s.check()
         STATS['queries'] += 1
         dt = time.time() - t0
